@@ -12,7 +12,7 @@ PROP = {
                  "three-way differential correspondence on full frames",
     "streams": [{"name": "c15", "shards": {"quick": 4, "thorough": 16}}],
     "modules": ["GbVerif.Model.Tile", "GbVerif.Model.Ppu", "GbVerif.Spec.Bits", "GbVerif.Spec.Frame", "GbVerif.Proofs.Enum", "GbVerif.Proofs.PpuInterleave",
-                "GbVerif.Proofs.PpuBits"],
+                "GbVerif.Proofs.PpuBits", "GbVerif.Proofs.PpuObj", "GbVerif.Proofs.PpuSel", "GbVerif.Proofs.NatBits"],
     "exhaustive": False,
     "rule": "quick 300 / thorough 30000 full frames (23040 pixels each) from power-on through VideoState's public API in random "
             "batch sizes; VRAM/OAM/LCDC bits 1-6/SCX/SCY/WX/WY/BGP/OBP0/OBP1 random + adversarial (11..40 objects on a line, equal X, "
